@@ -186,9 +186,12 @@ func runC09(p *Prog, r *Report, tier string) {
 		}
 	}
 	// (3) size gate
-	cm := p.Fn("pkg/exporter.CreateIPFIXMsg")
+	var cm *ssa.Function
+	if bi := msgBuilder(p); bi != nil {
+		cm = bi.fn
+	}
 	if cm == nil {
-		r.Undecided("R-GATE.size", "anchor: CreateIPFIXMsg", "pkg/exporter/msg.go", "function not found")
+		r.Undecided("R-GATE.size", "anchor: the IPFIX message builder", "pkg/exporter/msg.go", "function not found")
 	} else {
 		maxSz, _ := pkgConst(p, modPath+"/pkg/entities", "MaxSocketMsgSize")
 		hdr, _ := pkgConst(p, modPath+"/pkg/entities", "MsgHeaderLength")
